@@ -15,7 +15,7 @@ From Coq Require Import String.
 From Coq Require Import ZArith Reals List Bool Arith Lia Lra Permutation.
 From Dadi Require Import Base.Num Base.NumR Model.PopOps Proofs.PopOpsIdx Proofs.PopOpsProofs Proofs.PopOpsReorder
   Proofs.PopOpsCommute Proofs.PopOpsFoldCommute Proofs.PopOpsCombine Proofs.PopOpsScramble
-  Proofs.PopOpsProjCommute Proofs.PopOpsFoldMarg.
+  Proofs.PopOpsProjCommute Proofs.PopOpsFoldMarg Proofs.PopOpsFoldCombine Proofs.PopOpsFoldScramble.
 Import ListNotations.
 Local Open Scope R_scope.
 
@@ -266,3 +266,45 @@ Proof. intros a.
   split; [exact P|]. split; [exact F2|].
   apply (marginalize_commutes_with_projection a [1%nat] true [1; 1]%nat); auto.
   all: try (constructor; [intros []|constructor]); try (constructor; [simpl; lia|constructor]). Qed.
+
+(** combine_two_pops(fold fs) and fold(combine_two_pops fs): same shape, labels, folded flag, data AND mask at every entry,
+    whatever is masked (merging two axes keeps the total derived-allele count of an entry and the total sample size, and maps
+    the mirror of an entry to the mirror of its image); every axis needs at least one entry *)
+Theorem C10_combine_commutes_with_fold : forall (g : spec R) p q,
+  (1 <= p <= length (sh g))%nat -> (1 <= q <= length (sh g))%nat -> p <> q ->
+  Forall (fun s => (1 <= s)%nat) (sh g) ->
+  same_spectrum (combine_two_pops p q (fold g)) (fold (combine_two_pops p q g)).
+Proof. exact combine_two_commutes_with_fold. Qed.
+Print Assumptions C10_combine_commutes_with_fold.
+
+(** ... hence combine_pops (any set of populations) by iteration *)
+Theorem C10_combine_pops_commutes_with_fold : forall (g : spec R) tc,
+  NoDup tc -> tc <> [] -> Forall (fun p => (1 <= p <= length (sh g))%nat) tc ->
+  Forall (fun s => (1 <= s)%nat) (sh g) ->
+  same_spectrum (combine_pops tc (fold g)) (fold (combine_pops tc g)).
+Proof. exact combine_pops_commutes_with_fold. Qed.
+Print Assumptions C10_combine_pops_commutes_with_fold.
+
+(** scramble_pop_ids(fold fs) and fold(scramble_pop_ids fs): same shape, labels, folded flag, data AND mask at every entry
+    (the pooled spectrum of the symmetrisation is the symmetrisation of the pooled spectrum; the multivariate hypergeometric
+    weights are invariant under complementing all counts) *)
+Theorem C10_scramble_commutes_with_fold : forall (g : spec R) mc,
+  fo g = false ->
+  same_spectrum (scramble_pop_ids mc (fold g)) (fold (scramble_pop_ids mc g)).
+Proof. exact scramble_commutes_with_fold. Qed.
+Print Assumptions C10_scramble_commutes_with_fold.
+
+(** the multivariate hypergeometric weights are invariant under complementing all counts *)
+Theorem C10_deal_prob_complement_symmetry : forall S c, inr S c -> deal_prob (F:=R) S (rev_idx S c) = deal_prob S c.
+Proof. exact deal_prob_rev. Qed.
+
+(** nan pattern: with at most the corners of fs masked, the entries of either side poisoned by a masked input entry are
+    corner entries, which fold masks *)
+Theorem C10_scramble_fold_poison_is_corners : forall (g : spec R) c,
+  corner_masked g -> inr (sh g) c ->
+  scramble_poison (fold g) c = true -> is_corner (sh g) c = true.
+Proof. exact scramble_fold_poison_is_corners. Qed.
+Theorem C10_scramble_poison_is_corners : forall (g : spec R) c,
+  fo g = false -> corner_masked g -> inr (sh g) c ->
+  scramble_poison g c = true -> is_corner (sh g) c = true.
+Proof. exact scramble_poison_is_corners. Qed.
